@@ -13,6 +13,21 @@ claim("C12",
   "Hash functions are trusted; Header.Recover is exempt from the header hash (committed through the part-set hash, compared by every block-id comparison)." + TB,
   STATIC + "field coverage from types.Struct (K4), guard dominance (K1), sibling/shape agreement (K5), who-may-write (K3), truth-table interpretation of Equals/Verify (K6)")
 
+claim("C02",
+  "Structural necessary conditions: every prevote for the proposal block and every lock of it is dominated (on all paths) by the evidence check, the application check and the full validateBlock against the current status; validateBlock's nil return is dominated by every comparison the property lists, with the disjunctive cases (recover, first block) decided as path properties, and one loop iteration cannot continue without verifying its evidence item; ApplyBlock validates before updating/saving status. Found and repaired a genuine defect (votes without validateBlock; fix commit 01d431c).",
+  "Correctness of CheckBlock's execution (C05) and of VerifyCommit (C03) are assumed here." + TB,
+  STATIC + "guard dominance (K1), disjunctive all-paths guards and per-iteration loop paths (K2)")
+
+claim("C03",
+  "Structural necessary conditions: in VerifyCommit the tally increment is dominated by nil/height/round/type/signature/block-id guards whose operands are bound to the SAME slot index (provenance through SSA rendering), the nil return by the strict two-thirds normal form; VoteSet admission guards, single-count structure of the round total and per-block totals, first-crossing rule for maj23, quorum normal forms, sign-bytes field coverage, and the arguments/guards of every VerifyCommit call site (validateBlock, fast sync, reconstructLastCommit).",
+  "The signature scheme is trusted; int64 overflow above the quantifier's 2^62 bound is not considered; arrival-order behaviour beyond the single-count structure is not decided." + TB,
+  STATIC + "guard dominance with slot-index provenance (K1), threshold normal forms (K11), who-may-call/write (K3), field coverage (K4)")
+
+claim("C04",
+  "Exhaustive abstract interpretation of FilePV.checkHRS over all 108 orderings of last-vs-requested height/round/step and nil-ness of the stored record against the double-sign specification; guard dominance for the signing call and for every release of a signature; persist-before-release as an all-paths property from PrivKey.Sign to the store into the vote/proposal; field coverage of the persisted record; WriteFileAtomic's O_SYNC and write<close<rename order; who may sign with the validator key. Two genuine weaknesses are reported as known findings (SignVoteWithoutSave, SignData).",
+  "File-system durability of O_SYNC+rename and the JSON round trip inside the timestamp-only helpers are trusted." + TB,
+  STATIC + "comparison-only abstract interpretation (K6), must-pass-through CFG paths (K2), guard dominance (K1), who-may-call/write (K3), field coverage (K4)")
+
 for _p in ["C%02d" % i for i in range(1, 21)]:
     if _p not in CLAIMED:
         na(_p, PENDING)
